@@ -131,6 +131,27 @@ FAMILIES["lexsplit"] = {
     ],
 }
 
+FAMILIES["lexargs"] = {
+    "anchor": "parser/src/lex.rs Lexer::run: arm `\"?\"` (debug-count token): nested fn read_chain and the integer-subscript arm of `match subscript`; struct Loc",
+    "bound": "up to 6 following characters from the 5 classes the arm distinguishes; n < 2^30; any i32 subscript",
+    "header": "use crate::shim::*;\n",
+    "rewrites": (PUBCRATE,),
+    "dropped": "nothing inside the extracted items (the arm is emitted as a method taking the bindings `n`, `num`, `start` of the enclosing code as parameters and returning the lexer)",
+    "groups": [
+        {"prefix": "#[derive(Debug, Clone, Copy, PartialEq, Eq, PartialOrd, Ord)]\n",
+         "items": [{"kind": "block", "name": "struct Loc", "file": "parser/src/lex.rs", "header": r"^pub struct Loc \{"}]},
+        {"items": [
+            {"kind": "fn", "name": "read_chain (nested in Lexer::run)", "file": "parser/src/lex.rs", "fn": "read_chain",
+             "rewrites": (("R1", r"^fn read_chain", "pub fn read_chain", "visibility widened"),)},
+        ]},
+        {"wrap": "impl<'a> Lexer<'a>", "items": [
+            {"kind": "arm", "name": "integer-subscript arm of the `?` token", "file": "parser/src/lex.rs", "impl": r"^impl<'a> Lexer<'a> \{", "fn": "run",
+             "arm": r"Some\(Subscript \{\s*num: Some\(NumericSubscript::N\(Some\(SubscriptNumber::Int\(num\)\)\)\),\s*side: None,\s*\}\)",
+             "sig": "pub fn arm_args_int(mut self, n: i32, num: i32, start: Loc) -> Self", "epilogue": "\n    self"},
+        ]},
+    ],
+}
+
 ARMSIG_P = "pub fn {n}(prim: &Prim, purity: Purity) -> bool"
 ARMSIG_M = "pub fn {n}(prim: &Prim, args: &[SigNode], purity: Purity, asm: &Assembly, visited: &mut Visited) -> bool"
 FAMILIES["purity"] = {
